@@ -58,7 +58,8 @@ def closure(units):
 
 
 FIX_COMMITS = ['6dbd058 fix: with_prec rounds negative values symmetrically (C07)',
-               'c977df5 fix: DivAssign<integer> panics on a zero divisor (C08)']
+               'c977df5 fix: DivAssign<integer> panics on a zero divisor (C08)',
+               'beb88f2 fix: equality no longer overflows when adding the carry (C02)']
 NOTES = ('Contract-based deductive verification (Verus) of functions re-extracted from /repo on every run; '
          'see DESIGN.md.  exit 2 = undecided because of the machinery (never a violation).')
 
@@ -69,7 +70,7 @@ NOT_APPLICABLE = {
     'C13': 'statement about the real function e^x to one ulp; contracts here are integer-only and the Taylor loop has no termination measure (DESIGN.md section 7)',
     'C17': 'feature-gated code generic over foreign serde traits and strings; no contract within reach (DESIGN.md section 7)',
 }
-for _p in ['C02', 'C05', 'C10', 'C11', 'C12', 'C14', 'C16', 'C19']:
+for _p in ['C05', 'C10', 'C11', 'C12', 'C14', 'C16', 'C19']:
     NOT_APPLICABLE[_p] = _WIP
 
 _NOTE_COMMON = ('Assumed: num-bigint/num-traits/num-integer contracts (spec/shim_base.rs, vf/shimgen.py), std specs, '
@@ -85,6 +86,17 @@ prop('C01', units=['add', 'sub', 'mul', 'derived', 'prim_add', 'prim_sub', 'prim
                  'sum/difference/product (integer relation is_sum/is_diff/is_prod over i*10^-s), plus freedom from i64 overflow; '
                  'not covered: the two Sum impls (Iterator::fold with a closure has no Verus spec)'),
      level_note=_NOTE_COMMON + ' Verus resolves `x op &y` through the owned impl; every ownership variant carries the same contract and is proved against its own body.',
+     technique=_TECH)
+
+prop('C02', units=['cmp', 'core', 'scale', 'digits', 'pow10'], level='proof',
+     level_text=('Verus proves that cmp / partial_cmp on values and on reference views return exactly the comparison of the denoted numbers '
+                 '(sign handling, checked scale difference with the order decided by the scales when it overflows, reversal for negatives; '
+                 'compare_scaled_biguints: bit-length pre-filter, digit-count comparison and the digit-wise loop with its remaining-digits-all-zero tail) '
+                 'with no scale precondition and no overflow, and that eq on values and views forwards to the equality routine; the equality routine itself '
+                 'is proved free of overflow / failed unwrap / bad indexing on its real body (this found the tmp + carry defect, now fixed), while its functional '
+                 'contract (true iff the values are equal) and the u64/u128 fast path compare_scalar_biguints are ASSUMED, not proved. Totality, antisymmetry and '
+                 'transitivity follow because the result is a function of the pair of denoted integers at a common scale (lemma_cmp_at)'),
+     level_note=_NOTE_COMMON + ' Float axiom A2 for the bit-length pre-filter; 64-bit target (size_of usize == 8); the reversed digit iterator and the u32 word iterator are explicit-state stand-ins (R6).',
      technique=_TECH)
 
 prop('C06', units=['round', 'scale', 'context', 'config', 'core', 'pow10'], level='proof',
